@@ -143,8 +143,8 @@ let run_convert (kill_fixed : bool) (mount_nl : bool) (f : string list) : string
 
 let run (op : string) (f : string list) : string =
   match op, f with
-  | "convert", f -> run_convert false true f
-  | "convert_fixed", f -> run_convert true false f
+  | "convert", f -> run_convert true true f
+  | "convert_pinned", f -> run_convert false true f
   | "is_url", [s] -> ok [tf (M.is_url (to_str s))]
   | "cleaned", [p] -> ok [of_str (M.cleaned (to_str p))]
   | "absolute_from", [p; r] -> (match M.absolute_from (to_str p) (to_str r) with Some x -> ok [of_str x] | None -> "CWD")
